@@ -9,7 +9,8 @@ set -e
 ROOT=$(cd "$(dirname "$0")/.." && pwd)
 OUT="$ROOT/.work/ocaml"
 mkdir -p "$OUT"
-ENGINES="c20|coq/Extract/C20Extract.v|ocaml/c20_driver.ml|coq/Model/Base.v coq/Model/Civil.v coq/Model/SmppTime.v"
+ENGINES="c20|coq/Extract/C20Extract.v|ocaml/c20_driver.ml|coq/Model/Base.v coq/Model/Civil.v coq/Model/SmppTime.v
+pdu|coq/Extract/PduExtract.v|ocaml/pdu_driver.ml|coq/Model/Base.v coq/Model/Flags.v coq/Model/Pdu.v coq/Gen/PduLayouts.v coq/Model/PduRun.v"
 
 echo "$ENGINES" | while IFS='|' read -r name ext drv models; do
   [ -n "$name" ] || continue
